@@ -99,6 +99,47 @@ def probe_diag_jitter_form():
     return "unknown"
 
 
+def probe_variants():
+    """Which version of the code that has a pinned and a repaired form does the tree under test contain?  Probed by
+    behaviour on fixed tiny inputs (the model has both transcriptions, selected by these flags; a third behaviour shows
+    up as a model disagreement):
+      first_guard       lanczos_tridiag on 2*I_3 stops after the first step (m = 1)      [fix C09-degenerate-budget-and-start]
+      root/diag/post_shape_fixed   batch (1, 2) resp. (1,) keeps its leading dimension   [fix C09-leading-singleton-batch]"""
+    from linear_operator.operators import to_linear_operator
+    from linear_operator.utils.lanczos import lanczos_tridiag
+    out = {"first_guard": False, "root_shape_fixed": False, "diag_shape_fixed": False, "post_shape_fixed": False}
+    try:
+        A = 2.0 * torch.eye(3, dtype=F64)
+        v = torch.tensor([[1.0], [2.0], [-1.0]], dtype=F64)
+        q, t = lanczos_tridiag(A.matmul, 3, dtype=F64, device=A.device, matrix_shape=A.shape, init_vecs=v)
+        out["first_guard"] = int(t.shape[-1]) == 1
+    except Exception:  # noqa
+        pass
+    g = torch.Generator().manual_seed(5)
+    Bm = torch.randn(1, 2, 4, 4, generator=g, dtype=F64)
+    A = Bm @ Bm.mT + torch.eye(4, dtype=F64)
+    try:
+        r = to_linear_operator(A).root_decomposition(method="lanczos").root
+        out["root_shape_fixed"] = tuple(r.shape[:2]) == (1, 2) and r.dim() == 4
+    except Exception:  # noqa
+        pass
+    try:
+        ev, V = to_linear_operator(A).diagonalization(method="lanczos")
+        out["diag_shape_fixed"] = tuple(ev.shape[:2]) == (1, 2) and ev.dim() == 3
+    except Exception:  # noqa
+        pass
+    try:
+        A1 = A[:, 0]
+        r = to_linear_operator(A1).root_inv_decomposition(initial_vectors=torch.randn(1, 4, 2, generator=g, dtype=F64),
+                                                          test_vectors=torch.randn(1, 4, 3, generator=g, dtype=F64),
+                                                          method="lanczos").root
+        r = r.to_dense() if hasattr(r, "to_dense") else r
+        out["post_shape_fixed"] = r.dim() == 3 and r.shape[0] == 1
+    except Exception:  # noqa
+        pass
+    return out
+
+
 def grid(quick):
     """API cells: api, n, batch, fam, size (max_root_decomposition_size), dtype, jitter (None = default), nprobe"""
     cells = []
@@ -123,6 +164,13 @@ def grid(quick):
                 for batch in ([], [2]):
                     cells.append({"api": "root_inv_multi", "n": n, "batch": batch, "fam": fam, "size": max(2, n - 2),
                                   "dtype": "f64", "jitter": None, "nprobe": nprobe, "start": "random", "nvec": nprobe})
+    # several probes with a budget that reaches the dimension (max_root_decomposition_size >= n): every probe gets the WHOLE
+    # budget, so every inverse root inverts A; incl. n above max_root_decomposition_size / number of probes
+    for (n, size, nprobe, batch) in ([(8, 8, 2, []), (8, 100, 3, [2]), (16, 100, 8, []), (64, 100, 2, [])] if quick else
+                                     [(8, 8, 2, []), (8, 100, 3, [2]), (16, 16, 2, [2]), (16, 100, 8, []), (24, 100, 5, []),
+                                      (64, 100, 2, []), (64, 100, 2, [2])]):
+        cells.append({"api": "root_inv_multi", "n": n, "batch": batch, "fam": "uniform", "size": size, "dtype": "f64",
+                      "jitter": None, "nprobe": nprobe, "start": "random", "nvec": nprobe})
     # batch shapes with dimensions of size 1 (the unsqueeze / squeeze bookkeeping of the forward passes and the
     # squeeze(0) of the probe selection)
     for bi, batch in enumerate([[1], [1, 2], [2, 1], [1, 1], [3, 1, 2]] if not quick else [[1], [1, 2], [2, 1], [1, 1]]):
@@ -335,8 +383,9 @@ def judge_api(c, d, r, lanczos_cell, default_jitter=1e-6):
                     fails.append({"fail": "diagonalization-not-compression", "lead": li, "value": e, "tolerance": rt})
             else:
                 worst["diag"] = max(worst.get("diag", 0.0), e / rt)
-        if c["api"] in ("root_inv", "root_inv_multi", "root_inv_1d") and lmin > 1e-3 * lmax and nprobe == 1:
-            Ri = _lead(r["inv"], n, m)[li]
+        if c["api"] in ("root_inv", "root_inv_multi", "root_inv_1d") and lmin > 1e-3 * lmax and (nprobe == 1 or rec.post):
+            # several probes: the inverse root of EVERY probe (what the probe selection was given) must invert on its span
+            Ri = _lead(r["inv"], n, m)[li] if nprobe == 1 else _lead(rec.post[-1][0], n, m)[li]
             kap = lmax / lmin
             tl = (1e-9 if c["dtype"] == "f64" else 1e-4) * kap * 10
             e = float((E @ (Ri @ Ri.T) - P).abs().max())
